@@ -596,4 +596,30 @@ fn k_stat_theta_pi_definition() {
     kani::cover!(true);
 }
 
+/// `Spectrum::normalize` / `into_normalized` (C14, also the `--normalize` step of `view`): every cell is divided by the sum
+/// of all cells (ratios preserved, shape unchanged, result sums to one).  BOUNDED: one concrete 2x3 table.
+#[kani::proof]
+#[kani::unwind(10)]
+fn k_stat_normalize_definition() {
+    let shape = [2usize, 3usize];
+    let scs = iota_scs(&shape);
+    let x = scs.inner().as_slice();
+    let mut total = 0.0;
+    let mut p = 0;
+    while p < 6 {
+        total += x[p];
+        p += 1;
+    }
+    let sfs = scs.clone().into_normalized();
+    assert!(sfs.shape().len() == 2 && sfs.shape()[0] == 2 && sfs.shape()[1] == 3, "normalising keeps the shape");
+    let y = sfs.inner().as_slice();
+    let mut p = 0;
+    while p < 6 {
+        assert!(y[p].to_bits() == (x[p] / total).to_bits(), "cell / sum of all cells");
+        p += 1;
+    }
+    assert!(close(sfs.sum(), 1.0), "a normalised spectrum sums to one");
+    kani::cover!(true);
+}
+
 playback_tests!("h_spectrum");
